@@ -45,6 +45,12 @@ var solvers = []solverSpec{
 	{"z3-new/ematching/seed13", func(t int, f string) []string {
 		return []string{"z3-new", "-smt2", fmt.Sprintf("-T:%d", t), "smt.mbqi=false", "smt.random_seed=13", "sat.random_seed=13", f}
 	}},
+	{"z3-new/ematching/seed42", func(t int, f string) []string {
+		return []string{"z3-new", "-smt2", fmt.Sprintf("-T:%d", t), "smt.mbqi=false", "smt.random_seed=42", "sat.random_seed=42", "smt.phase_selection=0", f}
+	}},
+	{"z3-new/ematching/seed99", func(t int, f string) []string {
+		return []string{"z3-new", "-smt2", fmt.Sprintf("-T:%d", t), "smt.mbqi=false", "smt.random_seed=99", "sat.random_seed=99", "smt.restart_strategy=0", f}
+	}},
 	{"z3-new", func(t int, f string) []string { return []string{"z3-new", "-smt2", fmt.Sprintf("-T:%d", t), f} }},
 	{"cvc5", func(t int, f string) []string {
 		return []string{"cvc5", "--lang=smt2", fmt.Sprintf("--tlimit=%d", t*1000), "--strings-exp", f}
@@ -58,7 +64,10 @@ func Script(lines []string, o *Obligation, withModel bool) string {
 	if n > len(lines) {
 		n = len(lines)
 	}
-	for _, l := range lines[:n] {
+	for i, l := range lines[:n] {
+		if !o.keeps(i) {
+			continue
+		}
 		b.WriteString(l)
 		b.WriteByte('\n')
 	}
@@ -156,8 +165,8 @@ func solveOne(o *Obligation, file string, cfg SolverConfig) {
 	ctx := context.Background()
 	// stage 1: z3-new, short timeout
 	t1 := cfg.TimeoutS
-	if t1 > 15 {
-		t1 = 15
+	if t1 > 8 {
+		t1 = 8
 	}
 	if o.Kind == "cover" {
 		t1 = 2
@@ -255,7 +264,10 @@ func HuntModel(lines []string, o *Obligation, work string) string {
 	if n > len(lines) {
 		n = len(lines)
 	}
-	for _, l := range lines[:n] {
+	for i, l := range lines[:n] {
+		if !o.keeps(i) {
+			continue
+		}
 		if strings.HasPrefix(l, "(assert") && (strings.Contains(l, "(forall ") || strings.Contains(l, "(exists ")) {
 			continue
 		}
@@ -282,4 +294,15 @@ func HuntModel(lines []string, o *Obligation, work string) string {
 		return out
 	}
 	return ""
+}
+
+var noSlice = os.Getenv("GVC_NOSLICE") != ""
+
+// keeps reports whether line i of the script belongs to the obligation's path slice.
+func (o *Obligation) keeps(i int) bool {
+	if noSlice || o.segs == nil || o.lineSeg == nil || i >= len(*o.lineSeg) {
+		return true
+	}
+	seg := (*o.lineSeg)[i]
+	return seg == 0 || o.segs[seg]
 }
